@@ -345,7 +345,14 @@ def projective_case(ctx, rng):
         return False
     for which in ("N", "Sz", "S^2"):
         kw = {"ref_state": solver.reference_circuit} if (use_ref and rng.random() < 0.5) else {}
-        v = solver.operator_expectation(which, var_params=theta, **kw)
+        try:
+            v = solver.operator_expectation(which, var_params=theta, **kw)
+        except Exception as e:
+            # the energy of this very state was just evaluated (success probability p > 0): the same post-selection
+            # cannot be impossible for the same circuit
+            ctx.violation(f"operator_expectation('{which}') raises {vlib.err_name(e)} ({str(e)[:90]}) on the state whose energy was just reported "
+                          f"(post-selection probability {p:.3g}; projective circuit, reference circuit {use_ref}, ref_state arg {'explicit' if kw else 'default'})", case)
+            return False
         ref = expval(sym_reference(solver, mol, cfg, which, n), psi)
         ctx.count("expect:" + which)
         if abs(v - ref) > TOL:
